@@ -267,6 +267,8 @@ fn inputs(rep: &mut Report, thorough: bool) {
 #[derive(Clone, Debug, PartialEq)]
 enum HOp {
     LogBase,
+    /// SET_LOG_BASE with a second, one-byte log: enough for region A's pages, too small for region B's
+    LogSmall,
     TableA,
     TableAB,
     AddB,
@@ -276,9 +278,10 @@ enum HOp {
 }
 
 fn histories(rep: &mut Report, depth: usize) {
-    let ops = [HOp::LogBase, HOp::TableA, HOp::TableAB, HOp::AddB, HOp::RemB, HOp::WriteA, HOp::WriteB];
+    let ops = [HOp::LogBase, HOp::LogSmall, HOp::TableA, HOp::TableAB, HOp::AddB, HOp::RemB, HOp::WriteA, HOp::WriteB];
     let a = (0u64, 0x2000u64);
-    let b = (0x4000u64, 0x2000u64);
+    // region B's pages (16, 17) live in log byte 2, region A's (0, 1) in byte 0
+    let b = (0x1_0000u64, 0x2000u64);
     let mut seqs: Vec<Vec<usize>> = vec![vec![]];
     let mut all: Vec<Vec<usize>> = Vec::new();
     for _ in 0..depth {
@@ -290,7 +293,7 @@ fn histories(rep: &mut Report, depth: usize) {
                 next.push(t);
             }
         }
-        all.extend(next.iter().filter(|s| matches!(ops[*s.last().unwrap()], HOp::WriteA | HOp::WriteB) && s.iter().any(|i| ops[*i] == HOp::LogBase)).cloned());
+        all.extend(next.iter().filter(|s| matches!(ops[*s.last().unwrap()], HOp::WriteA | HOp::WriteB) && s.iter().any(|i| matches!(ops[*i], HOp::LogBase | HOp::LogSmall))).cloned());
         seqs = next;
     }
     for seq in all {
@@ -300,6 +303,9 @@ fn histories(rep: &mut Report, depth: usize) {
         };
         let mem = memfd("c15-mem", 0x10000);
         let log = new_log(1);
+        let log2 = new_log(1);
+        // which log is in force: 0 none, 1 the page-sized one, 2 the one-byte one
+        let mut cur_log = 0u8;
         let (mut has_a, mut has_b, mut logging) = (false, false, false);
         // region (re)installed by a table message after the SET_LOG_BASE in force (known finding)
         let (mut a_late, mut b_late) = (false, false);
@@ -312,9 +318,27 @@ fn histories(rep: &mut Report, depth: usize) {
                     let out = h.req(SET_LOG_BASE, &p_log(4096, 4096), &[log.as_raw_fd()]);
                     if matches!(&out, ReqOut::Msg(d, _) if d.code == SET_LOG_BASE) {
                         logging = true;
+                        cur_log = 1;
                         a_late = false;
                         b_late = false;
                     } else {
+                        failed = true;
+                    }
+                }
+                HOp::LogSmall => {
+                    let out = h.req(SET_LOG_BASE, &p_log(1, 4096), &[log2.as_raw_fd()]);
+                    let accepted = matches!(&out, ReqOut::Msg(d, _) if d.code == SET_LOG_BASE);
+                    rep.evaluations += 1;
+                    if accepted != !has_b {
+                        rep.violation(&format!("C15:history:{}", if accepted { "log-too-small-accepted" } else { "valid-log-rejected" }), &format!("history {:?}: one-byte log with region B {}: accepted={accepted}", seq.iter().map(|i| format!("{:?}", ops[*i])).collect::<Vec<_>>(), if has_b { "present (needs 3 bytes)" } else { "absent" }), case.clone());
+                    }
+                    if accepted {
+                        logging = true;
+                        cur_log = 2;
+                        a_late = false;
+                        b_late = false;
+                    } else {
+                        // rejected: whatever was in force before stays in force, for every region
                         failed = true;
                     }
                 }
@@ -359,10 +383,20 @@ fn histories(rep: &mut Report, depth: usize) {
                     }
                     let Some(gm) = h.be.mem.lock().unwrap().clone() else { continue };
                     clear_window(&log, 4096, 4096);
+                    clear_window(&log2, 4096, 1);
                     let wr = gm.memory().write_slice(&[7u8; 8], GuestAddress(gpa));
                     let f = read_file(&log, 3 * 4096);
-                    let win = &f[4096..8192];
-                    let want = if logging { expected_window(&pages_of(gpa, 8), 4096) } else { vec![0u8; 4096] };
+                    let f2 = read_file(&log2, 3 * 4096);
+                    // the two windows side by side: the page-sized log, then the one-byte log
+                    let mut win: Vec<u8> = f[4096..8192].to_vec();
+                    win.push(f2[4096]);
+                    let pages = pages_of(gpa, 8);
+                    let mut want = if logging && cur_log == 1 { expected_window(&pages, 4096) } else { vec![0u8; 4096] };
+                    want.push(if logging && cur_log == 2 { expected_window(&pages, 1)[0] } else { 0 });
+                    let win = win.as_slice();
+                    if f2[..4096].iter().chain(f2[4097..].iter()).any(|x| *x != GUARD) {
+                        rep.violation("C15:history:outside-the-log-window", "bytes outside the one-byte log window were modified", case.clone());
+                    }
                     rep.evaluations += 1;
                     rep.transitions += 1;
                     if wr.is_err() {
@@ -371,7 +405,7 @@ fn histories(rep: &mut Report, depth: usize) {
                         rep.outcome("logging-not-in-force");
                         rep.violation(
                             &format!("C15:history:write-not-logged:{}", if (is_a && a_late) || (!is_a && b_late) { "region-installed-after-set_log_base" } else { "other" }),
-                            &format!("history {:?}: write at {gpa:#x} left log byte 0 = {:#04x}, expected {:#04x}", seq.iter().map(|i| format!("{:?}", ops[*i])).collect::<Vec<_>>(), win[0], want[0]),
+                            &format!("history {:?}: write at {gpa:#x}: page-sized log bytes 0..3 = {:02x?} (expected {:02x?}), one-byte log = {:#04x} (expected {:#04x})", seq.iter().map(|i| format!("{:?}", ops[*i])).collect::<Vec<_>>(), &win[..3], &want[..3], win[4096], want[4096]),
                             case.clone(),
                         );
                     } else {
@@ -541,7 +575,7 @@ pub fn run(rep: &mut Report) {
     rep.sample(json!({"layout":"two-regions-sharing-a-log-byte","write":{"gpa":"0x4fff","len":2},"expect_log_byte0":"0b00110000"}));
     rep.sample(json!({"history":["TableA","LogBase","AddB","WriteB"],"expect":"bit of page 5 set (logging stays in force for memory added later)"}));
     rep.sample(json!({"schedule":"2 writers x 1 mark","expect":"byte 0 == OR of both bits in every interleaving of the atomic accesses"}));
-    rep.rule = "inputs: 8 region layouts (1-4 regions sharing log bytes, adjacent, crossing a log-byte boundary, three unaligned ones) x log window at file offset 4096 / 8192 between guard pages x log sizes {needed-1, needed, needed+1, 4096} x writes (offset, len) over {0,1,4095,4096,4097,8191,8192,8193,end-4097,end-4096,end-2,end-1} x {0,1,2,4095,4096,4097,8191,8192,8193,size,to-end} through GuestMemory::write_slice, one write spanning two regions and one used-ring update; histories: all sequences of length <= 3 (4 at thorough) over {SET_LOG_BASE, table A, table A+B, ADD B, REM B, write A, write B} ending in a write after a SET_LOG_BASE; schedules: N writers marking distinct bits of the same log byte, every interleaving of the atomic accesses (N=2,3; up to 6 at thorough). Oracle: log window == independent page-set bitmap (LSB first), guard bytes untouched, rejection iff unaligned region or log too small, final byte == OR of all writers' bits. Non-trivial = writes / set-ups / schedules whose log content was compared".into();
+    rep.rule = "inputs: 8 region layouts (1-4 regions sharing log bytes, adjacent, crossing a log-byte boundary, three unaligned ones) x log window at file offset 4096 / 8192 between guard pages x log sizes {needed-1, needed, needed+1, 4096} x writes (offset, len) over {0,1,4095,4096,4097,8191,8192,8193,end-4097,end-4096,end-2,end-1} x {0,1,2,4095,4096,4097,8191,8192,8193,size,to-end} through GuestMemory::write_slice, one write spanning two regions and one used-ring update; histories: all sequences of length <= 3 (4 at thorough) over {SET_LOG_BASE, SET_LOG_BASE with a one-byte log (enough for region A, too small for region B: must be rejected and leave the log in force untouched), table A, table A+B, ADD B, REM B, write A, write B} ending in a write after a SET_LOG_BASE; schedules: N writers marking distinct bits of the same log byte, every interleaving of the atomic accesses (N=2,3; up to 6 at thorough). Oracle: log window == independent page-set bitmap (LSB first), guard bytes untouched, rejection iff unaligned region or log too small, final byte == OR of all writers' bits. Non-trivial = writes / set-ups / schedules whose log content was compared".into();
     rep.assumptions.push("the atomic accesses of the bitmap go through the verif-hooks AtomicU8 wrapper, which makes each of them a scheduling point; sequentially consistent scheduler (Relaxed ordering is irrelevant for a single RMW)".into());
 }
 
